@@ -82,12 +82,15 @@ func (a *AttrConditionPlanner) maybeCreateWhere() error {
 		return nil
 	}
 	preFilter := true
+	// build into locals: a term that cannot be rendered must leave the planner as it was,
+	// otherwise the next Process would find the partial list and skip the rejected term
+	var sqlConds, where []sql.SQLCondition
 	for _, t := range a.Terms {
 		sqlTerm, err := a.getTerm(t)
 		if err != nil {
 			return err
 		}
-		a.sqlConds = append(a.sqlConds, sqlTerm)
+		sqlConds = append(sqlConds, sqlTerm)
 
 		if !strings.HasPrefix(t.Label, "span.") &&
 			!strings.HasPrefix(t.Label, "resource.") &&
@@ -96,11 +99,12 @@ func (a *AttrConditionPlanner) maybeCreateWhere() error {
 			preFilter = false
 			continue
 		}
-		a.where = append(a.where, sqlTerm)
+		where = append(where, sqlTerm)
 	}
 	if !preFilter {
-		a.where = nil
+		where = nil
 	}
+	a.sqlConds, a.where = sqlConds, where
 	return nil
 }
 
